@@ -664,3 +664,75 @@ package proxy
 //@   at-call KnownPacket as kp: assert arg0 == pc
 //@   at-call forwardToServer#1 as unk: assert [unknown-packets-are-relayed-raw] called(kp) && !res(kp) && arg1 == pc
 //@   ensures [unknown-is-relayed] called(kp) && (!res(kp) ==> called(unk))
+
+// ---- C22: a command runs on the proxy or reaches the backend exactly once -------------------------------------------
+// One command, one event, one queued result.
+//@ func (*chatHandler).queueCommandResult
+//@   props C22
+//@   at-call Fire as ev: assert [event-carries-the-command-line] dyntype(arg1, "proxy.CommandExecuteEvent") && streq(cast(arg1, *CommandExecuteEvent).commandline, message) && streq(cast(arg1, *CommandExecuteEvent).originalCommand, message) && ref(cast(arg1, *CommandExecuteEvent).source) == c.player
+//@   at-call QueuePacket as q: assert [queued-after-the-event] called(ev) && arg0 == c.player.chatQueue
+//@   ensures [one-event-one-queued-result] called(ev) && called(q)
+// The proxy dispatcher decides: no error = executed; "forward" or "unknown command" = not a proxy command (goes on to
+// the backend); a syntax error is reported to the player and counts as executed; anything else is an error.
+//@ func executeCommand
+//@   props C22
+//@   at-call Do as run: assert arg0 == cmdMgr && streq(arg3, cmd)
+//@   ensures [dispatched-once] called(run)
+//@   ensures [no-error-means-executed] res(run) == nil ==> hasRun && err == nil
+// Per protocol family.
+//@ func (*chatHandler).handleCommand
+//@   props C22
+//@   at-call handleSessionCommand#1 as s1: assert dyntype(packet, "chat.SessionPlayerCommand") && !arg2
+//@   at-call handleSessionCommand#2 as s2: assert dyntype(packet, "chat.UnsignedPlayerCommand") && arg2
+//@   at-call handleKeyedCommand as k: assert dyntype(packet, "chat.KeyedPlayerCommand")
+//@   at-call handleLegacyCommand as l: assert dyntype(packet, "chat.LegacyChat")
+// Legacy: exactly ONE leading slash is stripped ("//wand" stays "/wand" for the event and the dispatcher).
+//@ func (*chatHandler).handleLegacyCommand
+//@   props C22
+//@   at-call TrimPrefix as strip: assert [one-leading-slash] streq(arg0, packet.Message) && streq(arg1, "/")
+//@   at-call queueCommandResult as q: assert called(strip) && streq(arg1, res(strip)) && arg3 == nil
+//@   ensures called(q)
+// The decision, after the event: denied -> nothing (never the backend); forward requested -> the backend gets the event's
+// command line; otherwise the proxy executes it, and only if it was not a proxy command the backend gets the ORIGINAL line.
+//@ func (*chatHandler).handleLegacyCommand$1
+//@   props C22
+//@   at-call Allowed as al: assert arg0 == e
+//@   at-call Command as cm: assert called(al) && res(al) && arg0 == e
+//@   at-call Forward as fw: assert called(al) && res(al) && arg0 == e
+//@   at-call executeCommand as ex: assert [executed-only-if-allowed-and-not-forwarded] called(al) && res(al) && called(fw) && !res(fw) && called(cm) && streq(arg0, res(cm)) && arg1 == c.player && arg2 == c.cmdMgr
+//@   at-call ToServer#1 as fwd: assert [forward-sends-the-events-command-line] called(fw) && res(fw) && streq(arg0.Message, "/" + res(cm))
+//@   at-call ToServer#2 as pass: assert [unknown-to-the-proxy-goes-on-unchanged] called(ex) && res(ex, 1) == nil && !res(ex, 0) && streq(arg0.Message, packet.Message)
+//@   ensures [denied-never-reaches-the-backend] called(al) && (!res(al) ==> isnil(result) && !called(ex) && !called(fwd) && !called(pass))
+//@   ensures [executed-by-the-proxy-is-not-sent-on] called(ex) && (res(ex, 1) != nil || res(ex, 0)) ==> isnil(result) && !called(pass)
+//@   ensures [not-a-proxy-command-is-sent-on-once] called(ex) && res(ex, 1) == nil && !res(ex, 0) ==> called(pass) && !called(fwd)
+//@ func (*chatHandler).handleKeyedCommand
+//@   props C22
+//@   at-call queueCommandResult as q: assert streq(arg1, packet.Command) && arg3 == nil
+//@   ensures called(q)
+//@ func (*chatHandler).handleKeyedCommand$1
+//@   props C22
+//@   at-call Allowed as al: assert arg0 == e
+//@   at-call Command as cm: assert called(al) && res(al) && arg0 == e
+//@   at-call Forward as fw: assert called(al) && res(al) && arg0 == e
+//@   at-call executeCommand as ex: assert [executed-only-if-allowed-and-not-forwarded] called(al) && res(al) && called(fw) && !res(fw) && called(cm) && streq(arg0, res(cm)) && arg1 == c.player && arg2 == c.cmdMgr
+//@   ensures [denied-never-reaches-the-backend] called(al) && (!res(al) ==> isnil(result) && !called(ex))
+//@   ensures [executed-by-the-proxy-is-not-sent-on] called(ex) && (res(ex, 1) != nil || res(ex, 0)) ==> isnil(result)
+// Session / unsigned (1.19.3+): denied or executed commands are consumed (at most an acknowledgement goes on, never the
+// command); forwarded or unknown-to-the-proxy commands go through forwardCommand with the event's command line.
+//@ func (*chatHandler).handleSessionCommand$4
+//@   props C22
+//@   at-call Allowed as al: assert arg0 == e
+//@   at-call Command as cm: assert called(al) && res(al) && arg0 == e
+//@   at-call Forward as fw: assert called(al) && res(al) && arg0 == e
+//@   at-call executeCommand as ex: assert [executed-only-if-allowed-and-not-forwarded] called(al) && res(al) && called(fw) && !res(fw) && called(cm) && streq(arg0, res(cm)) && arg1 == c.player && arg2 == c.cmdMgr
+//@   at-call dyn.consumeCommand#1 as denied: assert called(al) && !res(al)
+//@   at-call dyn.forwardCommand#1 as fwd: assert called(fw) && res(fw) && streq(arg1, res(cm))
+//@   at-call dyn.consumeCommand#2 as ran: assert called(ex) && res(ex, 1) == nil && res(ex, 0)
+//@   at-call dyn.forwardCommand#2 as pass: assert [unknown-to-the-proxy-goes-on] called(ex) && res(ex, 1) == nil && !res(ex, 0) && streq(arg1, res(cm))
+//@   ensures [denied-is-consumed] called(al) && (!res(al) ==> called(denied) && !called(ex) && !called(fwd) && !called(pass))
+//@   ensures [executed-is-consumed-not-sent-on] called(ex) && res(ex, 1) == nil && res(ex, 0) ==> called(ran) && !called(pass)
+//@   ensures [not-a-proxy-command-is-sent-on-once] called(ex) && res(ex, 1) == nil && !res(ex, 0) ==> called(pass) && !called(ran)
+// Consuming never emits the command itself: nothing, or only the acknowledgement offset.
+//@ func (*chatHandler).handleSessionCommand$1
+//@   props C22
+//@   ensures [consumed-commands-carry-no-command] isnil(result) || dyntype(result, "chat.ChatAcknowledgement")
